@@ -267,7 +267,10 @@ def run_impl(ctx, case):
                 late = cand
                 break
     file_bonds = [b for b in bonds if late is None or tuple(sorted(b)) != late]
-    ref = make_molecule(ctx.scratch, "REF", [f"C{k}" for k in range(n)], refpos, file_bonds)
+    # (one case in five: every atom of the reference residue but the first carries the SAME name — hydrogens written HC HC HC,
+    # polymer beads all EO: atoms are what their index says — seed C03-13: `molecule[i]` answered by name inside the residue)
+    rnames = [f"C{k}" for k in range(n)] if case.get("seed", 0) % 5 != 2 else ["C0"] + ["CX"] * (n - 1)
+    ref = make_molecule(ctx.scratch, "REF", rnames, refpos, file_bonds)
     if late is not None:
         ctx.count("topology:bond-added-after-first-use")
         try:
@@ -329,7 +332,16 @@ def run_impl(ctx, case):
             arg = a0
         else:
             arg = ref.copy()
-        arg.atoms_positions = arg_positions(case)
+        if ident != "fresh" and (case.get("seed", 0) // 7) % 2 == 0:
+            # moved IN PLACE in the strict sense: the new coordinates are written INTO the coordinate arrays the atoms
+            # already hold (`atom.position[:] = …`, what `arr[:] = arr @ R.T + t` does when the atoms hold row views of
+            # `arr`): the map reads where the atoms are now (seed C02-13: the stacked positions cached on the residue
+            # while every atom still holds the same array OBJECT)
+            ctx.count("argument-moved-in-place-through-the-atoms-arrays")
+            for a_, q_ in zip(gro_atoms_of(arg), arg_positions(case)):
+                a_.position[:] = q_
+        else:
+            arg.atoms_positions = arg_positions(case)
         arg_before = arg.atoms_positions.copy()
         if case.get("seed", 0) % 3 == 1:
             # the public attribute is assigned again (same value) between two calls: the projections were fixed at
